@@ -32,8 +32,18 @@ def build(rec):
     if k == 'moveback':
         o = build(rec[1])
         v = Vector(*[float(c) for c in rec[2]])
+        # the object is used (hashed, compared, printed) before, between and after the moves
+        hash(o), o == o, repr(o)
         o.move(v)
+        hash(o), o == o
         r = o.move(-v)
+        return r if rec[3] == 'returned' else o
+    if k == 'movedfrom':
+        # built somewhere else, used there (hashed / compared), then moved in place to the target position
+        o = build(rec[1])
+        hash(o), o == o, repr(o)
+        v = Vector(*[float(c) for c in rec[2]])
+        r = o.move(v)
         return r if rec[3] == 'returned' else o
     if k == 'deepcopy':
         return copy.deepcopy(build(rec[1]))
@@ -95,6 +105,11 @@ def den(rec):
     k = rec[0]
     if k in ('moveback', 'deepcopy'):
         return den(rec[1])
+    if k == 'movedfrom':
+        d = den(rec[1])
+        if d[0] == 'Vector':
+            return d
+        return X.xform(d, ((1, 0, 0), (0, 1, 0), (0, 0, 1)), 1, rec[2])
     if k in ('Point', 'Point/list', 'Point/vector'):
         return X.Pt(rec[1])
     if k == 'Vector':
@@ -141,7 +156,7 @@ FOREIGN = [('int', 3), ('str', 's'), ('None', None), ('tuple', (1, 2, 3)), ('flo
 
 def kind_of(rec):
     k = rec[0]
-    if k in ('moveback', 'deepcopy'):
+    if k in ('moveback', 'deepcopy', 'movedfrom'):
         return kind_of(rec[1])
     return k.split('/')[0]
 
@@ -260,6 +275,26 @@ E = ((1, 0, 0), (0, 1, 0), (0, 0, 1))
 MOVES = ((1, 2, -1), (F(-1, 2), F(1, 4), 0))
 
 
+POINT_ARGS = {'Point': (1,), 'Line/PV': (1,), 'Line/PP': (1, 2), 'HalfLine/PV': (1,), 'HalfLine/PP': (1, 2), 'Segment/PP': (1, 2), 'Segment/PV': (1,),
+              'Plane/PN': (1,), 'Plane/3P': (1, 2, 3), 'Plane/PVV': (1,)}
+
+
+def moved_from(rec, v, which='receiver'):
+    """recipe: build `rec` translated by -v, use it there, then move it by +v."""
+    k = rec[0]
+    mv = X.neg(v)
+    if k in POINT_ARGS:
+        r2 = list(rec)
+        for i in POINT_ARGS[k]:
+            r2[i] = X.add(rec[i], mv)
+        return ('movedfrom', tuple(r2), v, which)
+    if k == 'Polygon':
+        return ('movedfrom', ('Polygon', tuple(X.add(p, mv) for p in rec[1]), rec[2]), v, which)
+    if k == 'Polyhedron':
+        return ('movedfrom', ('Polyhedron', tuple(tuple(X.add(p, mv) for p in cyc) for cyc in rec[1]), rec[2], rec[3], rec[4]), v, which)
+    raise core.HarnessError('cannot shift %r' % (k,))
+
+
 def tilt(d, i):
     return tuple(F(c) + (F(1, 64) * (abs(F(d[0])) + abs(F(d[1])) + abs(F(d[2]))) if k == i else 0) for k, c in enumerate(d))
 
@@ -283,6 +318,8 @@ def line_group(p, d):
     reps.append(('moveback', ('Line/PV', p, d, 'float'), MOVES[0], 'receiver'))
     reps.append(('moveback', ('Line/PV', p, d, 'float'), MOVES[1], 'returned'))
     reps.append(('deepcopy', ('Line/PV', p, d, 'float')))
+    reps.append(moved_from(('Line/PV', p, d, 'float'), MOVES[0]))
+    reps.append(moved_from(('Line/PP', p, X.add(p, d), 'float'), MOVES[1], 'returned'))
     nears = []
     for i in range(3):
         off = X.scal(F(1, 64), E[i])
@@ -303,6 +340,8 @@ def halfline_group(p, d):
     reps.append(('moveback', ('HalfLine/PV', p, d, 'float'), MOVES[0], 'receiver'))
     reps.append(('moveback', ('HalfLine/PV', p, d, 'float'), MOVES[1], 'returned'))
     reps.append(('deepcopy', ('HalfLine/PV', p, d, 'float')))
+    reps.append(moved_from(('HalfLine/PV', p, d, 'float'), MOVES[0]))
+    reps.append(moved_from(('HalfLine/PV', p, d, 'float'), MOVES[1], 'returned'))
     nears = [('HalfLine/PV', p, X.neg(d), 'float'), ('HalfLine/PV', X.add(p, d), d, 'float'), ('HalfLine/PV', X.sub(p, X.scal(F(1, 2), d)), d, 'float')]
     for i in range(3):
         nears.append(('HalfLine/PV', X.add(p, X.scal(F(1, 64), E[i])), d, 'float'))
@@ -316,7 +355,8 @@ def segment_group(p, q):
     reps = [('Segment/PP', p, q, 'float'), ('Segment/PP', q, p, 'float'), ('Segment/PV', p, X.sub(q, p), 'float'),
             ('Segment/PV', q, X.sub(p, q), 'float'), ('Segment/PP', p, q, 'Fraction'), ('Segment/PP', q, p, 'int'),
             ('moveback', ('Segment/PP', p, q, 'float'), MOVES[0], 'receiver'),
-            ('moveback', ('Segment/PP', q, p, 'float'), MOVES[1], 'returned'), ('deepcopy', ('Segment/PP', p, q, 'float'))]
+            ('moveback', ('Segment/PP', q, p, 'float'), MOVES[1], 'returned'), ('deepcopy', ('Segment/PP', p, q, 'float')),
+            moved_from(('Segment/PP', p, q, 'float'), MOVES[0]), moved_from(('Segment/PP', q, p, 'float'), MOVES[1], 'returned')]
     nears = []
     d = X.sub(q, p)
     for i in range(3):
@@ -347,6 +387,8 @@ def plane_group(p, n):
     reps.append(('moveback', ('Plane/PN', p, n, 'float'), MOVES[0], 'receiver'))
     reps.append(('moveback', ('Plane/PN', p, n, 'float'), MOVES[1], 'returned'))
     reps.append(('deepcopy', ('Plane/PN', p, n, 'float')))
+    reps.append(moved_from(('Plane/PN', p, n, 'float'), MOVES[0]))
+    reps.append(moved_from(('Plane/PN', p, n, 'float'), MOVES[1], 'returned'))
     nears = []
     for i in range(3):
         off = X.scal(F(1, 64), E[i])
@@ -362,7 +404,7 @@ def point_group(p, kind):
     if kind == 'Point':
         reps = [('Point', p, 'float'), ('Point', p, 'Fraction'), ('Point', p, 'int'), ('Point/list', p, 'float'), ('Point/vector', p, 'float'),
                 ('moveback', ('Point', p, 'float'), MOVES[0], 'receiver'), ('moveback', ('Point', p, 'float'), MOVES[1], 'returned'),
-                ('deepcopy', ('Point', p, 'float'))]
+                ('deepcopy', ('Point', p, 'float')), moved_from(('Point', p, 'float'), MOVES[0]), moved_from(('Point', p, 'float'), MOVES[1], 'returned')]
         nears = [('Point', X.add(p, X.scal(k, E[i])), 'float') for i in range(3) for k in (F(1, 64), F(-1, 1024))]
     else:
         reps = [('Vector', p, 'float'), ('Vector', p, 'Fraction'), ('Vector', p, 'int'), ('Vector/PP', (1, 2, 3), X.add((1, 2, 3), p), 'float'),
@@ -382,6 +424,8 @@ def polygon_group(pts, full):
     reps.append(('moveback', ('Polygon', tuple(pts), 'float'), MOVES[0], 'receiver'))
     reps.append(('moveback', ('Polygon', tuple(pts), 'float'), MOVES[1], 'returned'))
     reps.append(('deepcopy', ('Polygon', tuple(pts), 'float')))
+    reps.append(moved_from(('Polygon', tuple(pts), 'float'), MOVES[0]))
+    reps.append(moved_from(('Polygon', tuple(pts), 'float'), MOVES[1], 'returned'))
     nears = []
     c = X.interior_point(X.Pg(pts))
     for i in range(n):
@@ -411,6 +455,8 @@ def polyhedron_group(K, tier):
     reps.append(('moveback', reps[0], MOVES[0], 'receiver'))
     reps.append(('moveback', reps[0], MOVES[1], 'returned'))
     reps.append(('deepcopy', reps[0]))
+    reps.append(moved_from(reps[0], MOVES[0]))
+    reps.append(moved_from(reps[0], MOVES[1], 'returned'))
     nears = []
     V = K[1]
     c = X.interior_point(K)
@@ -425,6 +471,40 @@ def polyhedron_group(K, tier):
     f3 = tuple(tuple(cy) for cy in perm.body_faces(K3))
     nears.append(('Polyhedron', f3, tuple(range(len(f3))), (0,) * len(f3), 'float'))
     return ('ConvexPolyhedron', tuple(reps), tuple(nears))
+
+
+def collision_groups():
+    """near misses that differ only by replacing a coordinate -1 by -2: CPython gives both the same
+    hash (hash(-1) == hash(-2) == -2), so any equality that is decided through hashes confuses them."""
+    out = []
+    E3 = ((1, 0, 0), (0, 1, 0), (0, 0, 1))
+    for ax in range(3):
+        e1, e2 = E3[ax], E3[(ax + 1) % 3]
+        m1 = X.neg(e1)
+        m2 = X.scal(-2, e1)
+        # coplanar triangles and quadrilaterals sharing all vertices but one
+        tri = (m1, e1, e2)
+        tri2 = (m2, e1, e2)
+        quad = (m1, X.neg(e2), e1, e2)
+        quad2 = (m2, X.neg(e2), e1, e2)
+        for a, b in ((tri, tri2), (quad, quad2), (tri2, tri), (quad2, quad)):
+            out.append(('ConvexPolygon', (('Polygon', a, 'float'), ('Polygon', tuple(reversed(a)), 'float'), ('Polygon', a, 'int')),
+                        (('Polygon', b, 'float'), ('Polygon', b, 'int'))))
+        out.append(('Segment', (('Segment/PP', m1, e1, 'float'), ('Segment/PP', e1, m1, 'int')), (('Segment/PP', m2, e1, 'float'), ('Segment/PP', e1, m2, 'int'))))
+        out.append(('Point', (('Point', m1, 'float'), ('Point', m1, 'int')), (('Point', m2, 'float'), ('Point', m2, 'int'))))
+        out.append(('Vector', (('Vector', m1, 'float'), ('Vector', m1, 'int')), (('Vector', m2, 'float'),)))
+        out.append(('HalfLine', (('HalfLine/PV', m1, e2, 'float'),), (('HalfLine/PV', m2, e2, 'float'),)))
+        out.append(('Line', (('Line/PV', m1, e2, 'float'),), (('Line/PV', m2, e2, 'float'),)))
+        out.append(('Plane', (('Plane/PN', m1, e1, 'float'),), (('Plane/PN', m2, e1, 'float'),)))
+        # bodies: a pyramid over the quadrilateral, apex on the third axis
+        e3 = E3[(ax + 2) % 3]
+        for q, q2 in ((quad, quad2), (quad2, quad)):
+            K, K2 = X.Ph(q + (e3,)), X.Ph(q2 + (e3,))
+            f1 = tuple(tuple(c) for c in perm.body_faces(K))
+            f2 = tuple(tuple(c) for c in perm.body_faces(K2))
+            out.append(('ConvexPolyhedron', (('Polyhedron', f1, tuple(range(len(f1))), (0,) * len(f1), 'float'),),
+                        (('Polyhedron', f2, tuple(range(len(f2))), (0,) * len(f2), 'float'),)))
+    return out
 
 
 class Groups(Family):
@@ -484,6 +564,7 @@ def families(tier):
     ft = tuple(tuple(c) for c in perm.body_faces(tet))
     base.append(('Polyhedron', ft, (0, 1, 2, 3), (0, 0, 0, 0), 'float'))
     fams.append(Groups('foreign', [('foreign', b) for b in base], chunk=1))
+    fams.append(Groups('hash-collision-near-misses', collision_groups(), chunk=4))
     return fams
 
 
